@@ -21,10 +21,18 @@ def main(modname, prop, tier):
     for k in ('explanation', 'functions', 'bounds', 'outside', 'assumptions'):
         desc[k] = meta.get(k, [] if k in ('functions', 'assumptions') else '')
     if hasattr(H, 'conformance'):
+        import signal
+
+        def _alarm(*a):
+            raise TimeoutError('conformance run exceeded 120 s (busy loop in the code under analysis?)')
+        signal.signal(signal.SIGALRM, _alarm)
+        signal.alarm(120)
         try:
             H.conformance(prop)
         except Exception:
             desc['conformance_error'] = traceback.format_exc()[-3000:]
+        finally:
+            signal.alarm(0)
     print('##VFW-DESC ' + json.dumps(desc))
 
 
